@@ -219,13 +219,17 @@ P = {
    text="Coq theorems over Cfb.v, through the BYTES: C13_layout_independent — for every container (512- or 4096-byte sectors, any "
         "named streams of any sizes) and every valid layout (placement of every FAT, DIFAT, directory, mini-FAT, mini-stream and "
         "stream sector, directory order with unused entries, free sectors, start field of empty streams), "
-        "cfb_get_stream fuel (cfb_write c l) n = Ok b for every stream (fuel >= 1 + number of DIFAT sectors), hence "
+        "cfb_get_stream fuel (cfb_write c l) n = Ok b for every stream (fuel >= 1 + number of DIFAT sectors; names distinct over the file: names_unique), hence "
         "C13_same_streams_same_read; built from C13_header_roundtrip (v3/v4), C13_difat_roundtrip, C13_fat_load_roundtrip, "
         "C13_dir_chain_roundtrip, C13_dirs_roundtrip (UTF-16 names), C13_minifat_load_roundtrip, C13_ministream_roundtrip, "
         "C13_chain_follow (any duplicate-free chain, any state of the lazy sector cache), C13_mini_compose, C13_empty_stream; "
-        "C13_written_names_listed (interface for C20: every stream / storage name is listed, has_directory holds); "
+        "C13_written_names_listed (interface for C20); the lookup the readers rely on: C13_find_dir_first (find_dir reaches the entry in the "
+        "lowest directory slot among the objects of that name), C13_layout_independent_first, C13_workbook_stream_preferred(_unique) "
+        "(Workbook preferred over Book in any directory order); "
         "C13_chain_cycle_is_error and totality C13_chain_total, C13_no_panic_cfb_new, C13_no_panic_get_stream (all inputs: neither "
-        "Panic nor OutOfFuel at fuel > file length / 512). No known class left (2 repaired). Tie: hook Cfb::new / get_stream / "
+        "Panic nor OutOfFuel at fuel > file length / 512). Two known classes with refutations on legal directory trees: shadowed_name / "
+        "shadowed_workbook (names are unique per storage only, the lookup takes the first entry of that name in the flat array: an "
+        "embedded object's Workbook stream in a lower slot is read instead of the root's; fix proposal in notes/C13_fix_proposal.diff). Tie: hook Cfb::new / get_stream / "
         "has_directory on extracted cfb_write outputs (both sector sizes, shuffled chains, boundary sizes, 40-entry directories, free "
         "sectors, > 109 FAT sectors), malformed containers, and every xls fixture re-laid-out under random layouts through Xls::new.",
    note=TB + " The 7.2 MB DIFAT case is compared code vs spec only (the extracted model is too slow on it).",
